@@ -69,6 +69,8 @@ warnings.filterwarnings("ignore", message="loadtxt: input contained no data")
 def regenerate(ctx: Ctx) -> None:
     ctx.gen_status.update(ktn_cfg.regenerate(["remove_minimum", "remove_minima", "add_minimum", "add_ts", "__init__", "reset_network"]))
     ctx.gen_status.update(tr_history.regenerate())
+    from translate import transcripts as _tr
+    ctx.gen_status.update(_tr.constructor_wiring(['NetworkSampling']))
 
 
 # ----------------------------------------------------------------------------- scripted components
